@@ -216,6 +216,30 @@ def _simple_chunk(params, lo, hi):
     return r
 
 
+U7 = [(0, 1), (1, 2), (0, 2), (2, 3), (3, 4), (4, 5), (3, 5), (5, 6), (4, 6), (6, 0), (1, 4), (2, 5)]
+UORD7 = [(0, 1, 2, 3, 4, 5, 6), (6, 5, 4, 3, 2, 1, 0), (3, 0, 5, 1, 6, 2, 4)]
+
+
+def _u7_chunk(params, lo, hi):
+    """7 nodes, every subset of the 12 declared undirected edges U7 (two triangles joined by a bridge, a third cycle, chords)
+    x 3 node orders: bow ties, cut vertices below the DFS root, cores of order 3 - shapes that need more than 5 nodes.
+    index = subset*3 + order"""
+    r = new_result()
+    for idx in range(lo, hi):
+        order = UORD7[idx % 3]
+        code = idx // 3
+        adj = [[] for _ in range(7)]
+        for b, (u, v) in enumerate(U7):
+            if code >> b & 1:
+                adj[u].append(v)
+                adj[v].append(u)
+        run_structural(r, 7, adj, order)
+        if len(r["violations"]) >= 40 or too_many_hangs():
+            r["capped"] = True
+            break
+    return r
+
+
 def _asym_chunk(params, lo, hi):
     """n=4: each of the 6 pairs in {absent, listed by u, listed by v, listed by both} x all node orders"""
     n = params
@@ -519,6 +543,7 @@ def _louvain_seq_chunk(params, lo, hi):
 
 def jobs(tier, seed):
     js = []
+    js.append(Job("structural_n7_subsets_of_declared_edges", 2 ** len(U7) * 3, _u7_chunk, None, describe=f"7 nodes, every subset of {U7}, 3 node orders"))
     js.append(Job("louvain_n4_mixed_listings", 4**6 * 2 * 3, _louvain_mixed_chunk, None, describe="each pair absent / listed by one endpoint / by the other / by both, 2 node orders x resolution {0.5,1,2}"))
     js.append(Job("louvain_n3_sequences", 40**3 * 3, _louvain_seq_chunk, None, describe="arbitrary neighbour sequences (self loops, duplicates, asymmetry) x resolution {0.5,1,2}"))
     for n in (1, 2, 3, 4, 5):
